@@ -1,47 +1,9 @@
 (* C15 - the length bound: what archive_acl_to_text_l/_w write fits in what archive_acl_text_len computes. *)
 From Coq Require Import List ZArith NArith Bool Lia Permutation.
 From LA Require Import Base.Val Gen.Defines Gen.AclConsts Entry.AclDefs.
+From LA Require Export Entry.AclBits.
 Import ListNotations.
 Local Open Scope N_scope.
-
-(* ------------------------------------------------------------------ small tools *)
-(* evaluate comparisons between closed constants *)
-Ltac eval_eqb :=
-  repeat match goal with
-  | |- context [N.eqb ?a ?b] =>
-    let v := eval vm_compute in (N.eqb a b) in
-    match v with
-    | true => change (N.eqb a b) with true
-    | false => change (N.eqb a b) with false
-    end
-  end.
-
-Lemma within_land : forall x m, within x m = true -> N.land x m = x.
-Proof.
-  unfold within. intros x m H. apply N.eqb_eq in H.
-  rewrite <- (N.lor_ldiff_and x m) at 2. rewrite H. apply N.lor_0_l.
-Qed.
-
-(* x inside m, m disjoint from k: x disjoint from k *)
-Lemma within_disjoint : forall x m k, within x m = true -> bit m k = false -> bit x k = false.
-Proof.
-  unfold bit. intros x m k Hw Hb.
-  apply negb_false_iff in Hb. apply N.eqb_eq in Hb.
-  apply negb_false_iff. apply N.eqb_eq.
-  rewrite <- (within_land x m Hw). rewrite <- N.land_assoc. rewrite Hb. apply N.land_0_r.
-Qed.
-
-(* x meets w, w inside p: x meets p *)
-Lemma bit_within : forall x w p, bit x w = true -> within w p = true -> bit x p = true.
-Proof.
-  unfold bit. intros x w p Hb Hw.
-  apply negb_true_iff in Hb. apply N.eqb_neq in Hb.
-  apply negb_true_iff. apply N.eqb_neq. intro H0. apply Hb.
-  rewrite <- (within_land w p Hw). rewrite (N.land_comm w p). rewrite N.land_assoc. rewrite H0. apply N.land_0_l.
-Qed.
-
-Lemma bit_comm : forall x y, bit x y = bit y x.
-Proof. intros. unfold bit. rewrite N.land_comm. reflexivity. Qed.
 
 (* ------------------------------------------------------------------ digits *)
 Lemma append_id_fuel_len : forall f id,
